@@ -44,7 +44,15 @@ SymCp(sym) ==
     [] sym = "lt" -> 60           \* written &lt;
     [] OTHER -> 63
 
+(* multi-character symbols (whole words) *)
+SymWord(sym) ==
+  CASE sym = "crlf" -> <<13, 10>>
+    [] sym = "w_checkbox" -> <<99, 104, 101, 99, 107, 98, 111, 120>>
+    [] sym = "w_radio" -> <<114, 97, 100, 105, 111>>
+    [] sym = "w_text" -> <<116, 101, 120, 116>>
+    [] sym = "w_number" -> <<110, 117, 109, 98, 101, 114>>
+    [] OTHER -> <<SymCp(sym)>>
+
 RECURSIVE SymsCp(_)
-SymsCp(syms) == IF syms = <<>> THEN <<>> ELSE IF Head(syms) = "crlf" THEN <<13, 10>> \o SymsCp(Tail(syms))
-                ELSE <<SymCp(Head(syms))>> \o SymsCp(Tail(syms))
+SymsCp(syms) == IF syms = <<>> THEN <<>> ELSE SymWord(Head(syms)) \o SymsCp(Tail(syms))
 =============================================================================
